@@ -30,6 +30,19 @@ func (u *Unit) val(s *State, v ssa.Value) Term {
 	case *ssa.Alloc, *ssa.Global, *ssa.FreeVar:
 		// address of a cell used as a value: should have been classified as escaping
 		panic(abortUnit{fmt.Sprintf("address of cell %s used as value", v.Name())})
+	case *ssa.FieldAddr, *ssa.IndexAddr:
+		// interior pointer used as a value (passed to a call, stored): copy-in to a fresh heap object;
+		// copied back after impure calls (see copyBackInterior)
+		if a, ok := s.addrs[v]; ok && a != nil {
+			et := cellElemType(v)
+			cur := u.load(s, a)
+			r := u.newAddr(s, "new.interior")
+			r.T = v.Type()
+			u.store(s, AddrDeref{r, et}, cur)
+			s.regs[v] = r
+			s.interior = append(s.interior, interiorPtr{r, a, et})
+			return r
+		}
 	}
 	panic(abortUnit{fmt.Sprintf("no value for %s = %s in %s", v.Name(), v, v.Parent())})
 }
